@@ -180,6 +180,10 @@ def run (op impl : String) : Ans :=
          let (v, tags) := judge fe r impl
          { model := renderW (writeRequest r), verdict := v, tags := tags })
   | ["rd", _] => viaFrontend "h1" "rd" impl
+  | ["rd", _, seg] =>
+    -- the same bytes delivered in segments: nothing in the model depends on the segmentation
+    let a := viaFrontend "h1" "rd" impl
+    { a with tags := a.tags ++ (if seg != "-" then ["segmented"] else []) }
   | ["h2", _, _, _] => viaFrontend "h2" "h2f" impl
   | ["sp", _, _, _] => viaFrontend "spdy" "spf" impl
   | ["h2c", _] => viaConn impl
